@@ -88,6 +88,13 @@ def _contract_job(args):
         from ..kernels import KBox
         try:
             name, sh, win, parts, want, inbits, check, text = configurations(tier)[idx]
+            from fractions import Fraction as Fr
+            from ..convspec import probes_half_integers
+            pr = None
+            if name == 'reim_to_znx64':
+                pr = probes_half_integers(Fr(sh['d']))
+            elif name == 'cplx_to_tnx32':
+                pr = probes_half_integers(Fr(sh['d']), 1 << 32)
             spec, inbuf, kind = specs()[name]
             r = KBox(ctx.lib()).instantiate(name, spec, {k: (float(v) if k == 'd' else v) for k, v in sh.items()}, cpu, expand='values')
             if r.status != 'ok':
@@ -99,7 +106,7 @@ def _contract_job(args):
                 return
             np_ = ns = 0
             for root, off in lanes.items():
-                A = analyse(root, parts, want, inbits, check)
+                A = analyse(root, parts, want, inbits, check, probes=pr)
                 np_ += A.partitions
                 ns += A.singletons
                 if A.unknown:
